@@ -10,6 +10,7 @@ import (
 	"io"
 	"os"
 	"sort"
+	"strconv"
 	"strings"
 	"sync"
 
@@ -42,6 +43,9 @@ type Op struct {
 	//   short-nil   the first Write takes the first half of p and returns (k, nil) with k < len(p)
 	//               (a writer that breaks the io.Writer contract; plain success when len(p) < 2)
 	//   second-err  the first Write succeeds, the second one returns (0, err)
+	//   third-err   the first two Writes succeed, the third one returns (0, err)
+	//   off-err:N   a writer with room for N bytes in all: the Write that would go beyond N takes what
+	//               still fits and returns (k, err) (the first Write, when it carries more than N bytes)
 	// Flag stays what the model is told (Sexp): true for the shapes whose error reaches a caller
 	// that hands over its output with one Write (zero-err part-err full-err), false for the others.
 	WFault string
@@ -187,6 +191,19 @@ func (w *faultWriter) Write(p []byte) (int, error) {
 			return k, nil
 		case w.shape == "second-err" && w.calls == 2:
 			return 0, errInjected
+		case w.shape == "third-err" && w.calls == 3:
+			return 0, errInjected
+		case strings.HasPrefix(w.shape, "off-err:"):
+			// the writer takes bytes until it holds N in all; the Write that would go beyond takes
+			// what still fits and returns (k, err); so does every later one (k = 0)
+			if n, err := strconv.Atoi(w.shape[len("off-err:"):]); err == nil && len(w.buf)+len(p) > n {
+				k := n - len(w.buf)
+				if k < 0 {
+					k = 0
+				}
+				w.buf = append(w.buf, p[:k]...)
+				return k, errInjected
+			}
 		}
 		w.buf = append(w.buf, p...)
 		return len(p), nil
